@@ -64,7 +64,10 @@ def _cases(draw, nmax):
         geom = {"pos": pos,
                 "epsr": draw(st.sampled_from([1.0, 1.5, 2.0, 3.0])),
                 "u_read": draw(st.sampled_from(UNITS))}
-    return {"N": n, "E": E, "J": J, "d": d, "mult": mult, "perm": list(perm),
+    # what the built aggregate is used for before its operators are read (the built operators must stay the site-basis
+    # Frenkel ones whatever else is done with the aggregate)
+    uses = draw(st.lists(st.sampled_from(["diagonalize", "read-in-eigenbasis", "read"]), max_size=2))
+    return {"N": n, "E": E, "J": J, "d": d, "mult": mult, "perm": list(perm), "uses": uses,
             "u_in": draw(st.sampled_from(UNITS)), "u_build": draw(st.sampled_from(UNITS)), "geom": geom}
 
 
@@ -134,6 +137,21 @@ def check_case(case, ctx):
     ok, agg = guarded(ctx, "build", lambda: build_aggregate(qr, E, J, d, mult, "1/cm", "1/cm"))
     if not ok:
         return
+
+    def use():
+        for u in case.get("uses", []):
+            if u == "diagonalize":
+                agg.diagonalize()
+            elif u == "read":
+                read_HD(qr, agg)
+            else:
+                with qr.eigenbasis_of(agg.get_Hamiltonian()):
+                    read_HD(qr, agg)
+    if case.get("uses"):
+        ctx.label("used-before-read:" + "+".join(case["uses"]))
+        ok, _ = guarded(ctx, "use-before-read", use)
+        if not ok:
+            return
     H, D = read_HD(qr, agg)
 
     # ---- state list ----------------------------------------------------------
